@@ -27,9 +27,23 @@ type Solver struct {
 	SolveTime time.Duration
 	Log       io.Writer
 	dead      bool
+	kind      string
+	timeoutMs int
+	decls     []string   // declare-const lines in order
+	stack     [][]string // asserted formulas per level (level 0 first)
+	Restarts  int
 }
 
 func NewSolver(kind string, timeoutMs int) (*Solver, error) {
+	s := &Solver{Name: kind, kind: kind, timeoutMs: timeoutMs, declared: map[string]bool{}, stack: [][]string{nil}}
+	if err := s.start(); err != nil {
+		return nil, err
+	}
+	return s, nil
+}
+
+func (s *Solver) start() error {
+	kind, timeoutMs := s.kind, s.timeoutMs
 	var cmd *exec.Cmd
 	switch kind {
 	case "z3":
@@ -41,27 +55,51 @@ func NewSolver(kind string, timeoutMs int) (*Solver, error) {
 	case "cvc5-int":
 		cmd = exec.Command("cvc5", "--incremental", "--lang=smt2", fmt.Sprintf("--tlimit-per=%d", timeoutMs), "--produce-models", "--solve-bv-as-int=sum")
 	default:
-		return nil, fmt.Errorf("unknown solver %s", kind)
+		return fmt.Errorf("unknown solver %s", kind)
 	}
 	in, err := cmd.StdinPipe()
 	if err != nil {
-		return nil, err
+		return err
 	}
 	out, err := cmd.StdoutPipe()
 	if err != nil {
-		return nil, err
+		return err
 	}
 	cmd.Stderr = nil
 	if err := cmd.Start(); err != nil {
-		return nil, err
+		return err
 	}
-	s := &Solver{Name: kind, cmd: cmd, in: in, out: bufio.NewReaderSize(out, 1<<16), declared: map[string]bool{}}
+	s.cmd, s.in, s.out, s.dead = cmd, in, bufio.NewReaderSize(out, 1<<16), false
 	s.send("(set-option :produce-models true)")
 	s.send("(set-option :global-declarations true)")
 	if strings.HasPrefix(kind, "cvc5") {
 		s.send("(set-logic ALL)")
 	}
-	return s, nil
+	return nil
+}
+
+// restart kills a stuck solver process and rebuilds its assertion stack.
+func (s *Solver) restart() {
+	s.Restarts++
+	if s.cmd != nil && s.cmd.Process != nil {
+		s.cmd.Process.Kill()
+		s.cmd.Wait()
+	}
+	if err := s.start(); err != nil {
+		s.dead = true
+		return
+	}
+	for _, d := range s.decls {
+		s.send(d)
+	}
+	for i, lvl := range s.stack {
+		if i > 0 {
+			s.send("(push 1)")
+		}
+		for _, a := range lvl {
+			s.send("(assert " + a + ")")
+		}
+	}
 }
 
 func (s *Solver) Close() {
@@ -93,7 +131,9 @@ func (s *Solver) declare(t *Term) {
 	for n, v := range vars {
 		if !s.declared[n] {
 			s.declared[n] = true
-			s.send(fmt.Sprintf("(declare-const %s %s)", n, v.S.String()))
+			d := fmt.Sprintf("(declare-const %s %s)", n, v.S.String())
+			s.decls = append(s.decls, d)
+			s.send(d)
 		}
 	}
 }
@@ -101,6 +141,7 @@ func (s *Solver) declare(t *Term) {
 func (s *Solver) Push() {
 	s.send("(push 1)")
 	s.Level++
+	s.stack = append(s.stack, nil)
 }
 
 func (s *Solver) Pop(n int) {
@@ -109,6 +150,7 @@ func (s *Solver) Pop(n int) {
 	}
 	s.send(fmt.Sprintf("(pop %d)", n))
 	s.Level -= n
+	s.stack = s.stack[:len(s.stack)-n]
 }
 
 func (s *Solver) Assert(t *Term) {
@@ -116,21 +158,45 @@ func (s *Solver) Assert(t *Term) {
 		return
 	}
 	s.declare(t)
-	s.send("(assert " + t.SMT() + ")")
+	txt := t.SMT()
+	s.stack[len(s.stack)-1] = append(s.stack[len(s.stack)-1], txt)
+	s.send("(assert " + txt + ")")
 }
 
 func (s *Solver) readLine() string {
-	for {
-		line, err := s.out.ReadString('\n')
-		if err != nil {
+	type res struct {
+		line string
+		err  error
+	}
+	out := s.out
+	ch := make(chan res, 1)
+	go func() {
+		for {
+			line, err := out.ReadString('\n')
+			if err != nil {
+				ch <- res{"", err}
+				return
+			}
+			line = strings.TrimSpace(line)
+			if line == "" {
+				continue
+			}
+			ch <- res{line, nil}
+			return
+		}
+	}()
+	hard := time.Duration(s.timeoutMs)*time.Millisecond*2 + 5*time.Second
+	select {
+	case r := <-ch:
+		if r.err != nil {
 			s.dead = true
-			return "(error \"solver died: " + err.Error() + "\")"
+			return "(error \"solver died: " + r.err.Error() + "\")"
 		}
-		line = strings.TrimSpace(line)
-		if line == "" {
-			continue
-		}
-		return line
+		return r.line
+	case <-time.After(hard):
+		// the solver ignored its soft timeout: kill it, rebuild the stack, report unknown
+		s.restart()
+		return "timeout"
 	}
 }
 
@@ -168,6 +234,9 @@ func (s *Solver) Check() string {
 		}
 	}
 	s.SolveTime += time.Since(start)
+	if s.Log != nil {
+		fmt.Fprintf(s.Log, "; -> %s in %.3fs\n", res, time.Since(start).Seconds())
+	}
 	s.Queries++
 	switch res {
 	case "sat":
@@ -187,10 +256,13 @@ func (s *Solver) CheckWith(extra *Term) string {
 		return "unsat"
 	}
 	s.declare(extra)
+	gen := s.Restarts
 	s.send("(push 1)")
 	s.send("(assert " + extra.SMT() + ")")
 	r := s.Check()
-	s.send("(pop 1)")
+	if s.Restarts == gen {
+		s.send("(pop 1)")
+	}
 	return r
 }
 
@@ -200,6 +272,7 @@ func (s *Solver) CheckWithModel(extra *Term, vars []*Term) (string, map[string]u
 	for _, v := range vars {
 		s.declare(v)
 	}
+	gen := s.Restarts
 	s.send("(push 1)")
 	s.send("(assert " + extra.SMT() + ")")
 	r := s.Check()
@@ -207,7 +280,9 @@ func (s *Solver) CheckWithModel(extra *Term, vars []*Term) (string, map[string]u
 	if r == "sat" {
 		m = s.GetValues(vars)
 	}
-	s.send("(pop 1)")
+	if s.Restarts == gen {
+		s.send("(pop 1)")
+	}
 	return r, m
 }
 
